@@ -120,7 +120,9 @@ class C03(Check):
                "via_url": rng.random() < 0.5,
                "jpeg_plane": rng.choice(["xy", "xz"]),
                "jpeg_quality": rng.choice([90, 95, 100]),
-               "labels": rng.choice([1, 2, 3, 5, 17, 300, 0]),
+               "labels": rng.choice([1, 2, 3, 5, 17, 300, 1000, 1000, 0]),
+               # zero background slabs (sparse segmentations)
+               "sparse": rng.random() < 0.3,
                "blksize": rng.choice([512, 4096, 65536]),
                "short_every": rng.choice([0, 0, 3])}
         from sim import dsutil
@@ -229,6 +231,11 @@ class C03(Check):
         labels = scn["labels"] if scn["enc"] != "raw" else None
         arr = dsutil.voxels(scn["dtype"], scn["nchan"], co, salt,
                             labels or None)
+        if scn.get("sparse") and scn["enc"] == "compressed_segmentation":
+            arr = arr.copy()
+            arr[:, :, :, arr.shape[3] // 2:] = 0
+            if salt % 2:
+                arr[:, arr.shape[1] // 2:, :, :] = 0
         if scn["enc"] == "raw" and salt % 5 == 0:
             # voxel values whose stored bytes begin like a container format
             # (gzip / JPEG magic): they are just voxels
@@ -378,9 +385,15 @@ class C03(Check):
                     if op["fresh"]:
                         st, a2 = sut(get_accessor_for_url, DS, dict(aopts))
                         if st == "ok":
+                            # the extrinsic options of a reader need not be
+                            # the writer's: what is stored decides
+                            ropts = eopts if i % 3 else (
+                                {} if i % 2 else
+                                {"jpeg_plane": "xz" if scn["jpeg_plane"]
+                                 == "xy" else "xy", "jpeg_quality": 75})
                             st, rp = sut(
                                 precomputed_io.get_IO_for_existing_dataset,
-                                a2, encoder_options=eopts)
+                                a2, encoder_options=ropts)
                             if st == "exc":
                                 a2 = rp
                         if st == "exc":
